@@ -541,7 +541,7 @@ def inline_new_locals(prog):
                     i_ += 1
             changed = True
             rounds = 0
-            while changed and rounds < 8:
+            while changed and rounds < 80:
                 changed = False
                 rounds += 1
                 binds = scope_bindings(fnode)
@@ -884,6 +884,14 @@ class _Canon(ast.NodeTransformer):
 
     visit_ListComp = _project
     visit_GeneratorExp = _project
+
+    def visit_BinOp(self, n):
+        # P27: [a] + [b, c] -> [a, b, c]
+        self.generic_visit(n)
+        if isinstance(n.op, ast.Add) and _is_list_literal(n.left) and _is_list_literal(n.right):
+            self.count += 1
+            return ast.copy_location(ast.List(elts=n.left.elts + n.right.elts, ctx=ast.Load()), n)
+        return n
 
     def visit_UnaryOp(self, n):
         # P14: not (a OP b) -> a NEG(OP) b for a single comparison; not not B -> B
